@@ -95,7 +95,7 @@ pub fn make_corpus(rng: &mut Rng, idx: u64) -> Option<Corpus> {
     }
 }
 
-const KINDS: [Rd; 3] = [Rd::SampleRead, Rd::ByteLE, Rd::Channel];
+const KINDS: [Rd; 4] = [Rd::SampleRead, Rd::ByteLE, Rd::Channel, Rd::SampleIter];
 
 /// Rules used to decide whether altered bytes "happen to form another valid stream / frame":
 /// only what a decoder can be expected to detect.  Sample values outside the bit depth are not
@@ -156,6 +156,16 @@ pub fn judge_altered(rep: &mut Report, c: &Corpus, altered: &[u8], fault: Fault,
                 }
                 if on_boundary {
                     rep.count("frames_delivered_before_error", c.boundaries.binary_search(&n).unwrap());
+                }
+                // a truncated input simply ends: whatever a reader hands out when it is polled again
+                // after reporting the error cannot be audio of the file
+                if matches!(fault, Fault::Cut(_)) && d.samples_after_error > 0 {
+                    rep.violation(
+                        "corrupt-delivery",
+                        format!("samples-after-error:{kind:?}"),
+                        format!("{what}: {kind:?} reported '{e}' and then handed out {} more samples although the input had ended", d.samples_after_error),
+                        replay(),
+                    );
                 }
             }
             None => {
@@ -626,12 +636,19 @@ pub fn streaminfo_reject_cases(rep: &mut Report, rng: &mut Rng, count: usize) {
         let mut params = StreamParams::simple(ch, bps, 44100);
         let bs = *rng.pick(&[16usize, 32, 64]);
         let mut r2 = Rng::new(rng.next());
-        let class = i % 3;
+        let class = if i % 9 == 8 { 3 } else { i % 3 };
         let blocks = match class {
             2 => vec![bs, rng.usize(1, 14), bs],
+            // a short block followed by exactly 65536 more samples: "samples still to come" and the
+            // block's own size agree in their low 16 bits
+            3 => {
+                let mut v = vec![bs, rng.usize(1, 14)];
+                v.extend(std::iter::repeat(4096).take(16 * rng.usize(1, 2)));
+                v
+            }
             _ => vec![bs, bs, rng.usize(1, bs)],
         };
-        if class == 2 {
+        if class >= 2 {
             params.variable = true;
         }
         let total: usize = blocks.iter().sum();
@@ -659,6 +676,7 @@ pub fn streaminfo_reject_cases(rep: &mut Report, rng: &mut Rng, count: usize) {
                 si.total = (total - rng.usize(1, blocks[2] - 1)) as u64;
                 "more-samples-than-total"
             }
+            3 => "short-nonfinal-block-before-64k",
             _ => "short-nonfinal-block",
         };
         b[8..42].copy_from_slice(&si.to_bytes());
